@@ -43,6 +43,7 @@ type params struct {
 	Rounds    int    `json:"rounds"`     // parked scenario: number of parked->push rounds
 	ParkedEnd string `json:"parked_end"` // parked scenario: "close" after the rounds
 	PostErr   int    `json:"post_error"` // error scenario: pushes issued after OnError was seen
+	ErrClose  bool   `json:"err_close,omitempty"` // error scenario: Close is issued while the failing callback is executing
 	Index     int    `json:"index"`      // index of the history in the (seed, tier) case list
 	Attempt   int    `json:"attempt"`    // 0 = first run
 	Note      string `json:"note,omitempty"`
@@ -243,6 +244,9 @@ func checkDirect(h *history) (string, string) {
 				}
 				if h.OnErr[0] < d.X {
 					return "error/onerror-before-failure", "OnError invoked before the failing callback returned"
+				}
+				if h.CloseRet >= 0 && h.OnErr[0] > h.CloseRet {
+					return "error/onerror-after-close-returned", "OnError invoked after Close had returned"
 				}
 			} else if failed {
 				return "error/executed-after-error", fmt.Sprintf("item %d executed after a callback had returned an error", d.ID)
